@@ -583,6 +583,23 @@ impl Sys {
                     }
                 }
             }
+            // configuration getters: the game's localizer, the language, the endianness, the top layer
+            for p in ["d/a", "m", "x/y/z.bin"] {
+                let got = w.fs.localizer().localize(p, &w.fs.language()).map_err(|e| e.to_string());
+                let want = self.cfg.localize(p);
+                if got.as_ref().ok() != want.as_ref() {
+                    out.push(("typed:localizer".into(), format!("localizer().localize({:?}, language()) = {:?}, the game's mapping gives {:?}", p, got, want)));
+                }
+            }
+            if format!("{:?}", w.fs.language()) != format!("{:?}", self.cfg.language()) {
+                out.push(("typed:language".into(), format!("language() = {:?}", w.fs.language())));
+            }
+            if format!("{:?}", w.fs.endian()) != format!("{:?}", arch::endian(self.cfg.endian())) {
+                out.push(("typed:endian".into(), format!("endian() = {:?} for {:?}", w.fs.endian(), self.cfg.loc)));
+            }
+            if std::fs::canonicalize(w.fs.write_layer().root()).ok() != std::fs::canonicalize(&w.roots[w.roots.len() - 1]).ok() {
+                out.push(("typed:write_layer".into(), format!("write_layer().root() = {:?}, the highest-priority layer is {:?}", w.fs.write_layer().root(), w.roots[w.roots.len() - 1])));
+            }
             if w.fs.text_archive_format() as u8 != self.cfg.text_format() as u8 {
                 out.push(("typed:text_archive_format".into(), "text_archive_format() is not the game's text encoding".into()));
             }
